@@ -190,6 +190,9 @@ def main(tier):
         if d is not None:
             rep.violation(d, finding=classify(d))
     error_runs(rep, tier, ERR_JUDGED, groups=("core", "errors", "validity", "control"))
+    from checks import errgroup
+
+    errgroup.run(rep, tier, {"member_valid", "errors", "raised", "status"})
     rep.exhaustive = True
     rep.extra["policies"] = 64
     rep.extra["error_kinds"] = sorted(COMPONENT)
